@@ -12,19 +12,18 @@ type fnT = *ssa.Function
 type ssaGlobal = ssa.Global
 
 // vector returns the nondet results of this path in call order under the
-// current model (call only right after a sat answer, or with no symbolic
-// inputs); unconstrained inputs are completed from the seed.
-func (m *Machine) vector(haveModel bool) []int64 {
+// given model; inputs the model leaves unconstrained are completed from the
+// seed.
+func (m *Machine) vector(md *modelT) []int64 {
 	out := make([]int64, len(m.inputs))
 	for i, in := range m.inputs {
 		if in.t == nil {
 			out[i] = in.val
 			continue
 		}
-		var v uint64
-		got := false
-		if haveModel && m.sol.emit[in.t] {
-			v, got = m.sol.Value(in.t)
+		v, got := uint64(0), false
+		if md != nil {
+			v, got = md.vals[in.t]
 		}
 		if !got {
 			// not mentioned in any constraint: any value will do
@@ -39,22 +38,40 @@ func (m *Machine) vector(haveModel bool) []int64 {
 }
 
 // violate records a violation together with a concrete witness of the
-// current path condition (plus the extra literal, if any).
-func (m *Machine) violate(v Violation, extra ...*Term) {
+// current path condition (plus the extra literal, if any).  It returns
+// whether a witness exists.
+func (m *Machine) violate(v Violation, extra ...*Term) bool {
 	if m.replaying() {
-		return // found (and recorded) by the ancestor path that first got here
+		return false // found (and recorded) by the ancestor path that first got here
 	}
-	have := true
-	if r := m.sol.Check(extra...); r != "sat" {
-		have = false
-		if r == "unknown" {
-			panic(pathAbort{"unknown: solver unknown while extracting a counterexample"})
+	var md *modelT
+	if len(extra) == 0 {
+		md = m.fullModel()
+	} else {
+		// a cached model falsifying the assertion is a witness already
+		for _, c := range m.models {
+			all := true
+			for _, e := range extra {
+				if x, ok := c.eval(e); !ok || x != 1 {
+					all = false
+				}
+			}
+			if all {
+				md = c
+			}
 		}
-		if len(extra) > 0 {
-			return
+		if md == nil {
+			r, vals, groups := m.query(extra)
+			if r != "sat" {
+				return false
+			}
+			md = m.extend(vals, groups, extra)
 		}
 	}
-	v.Vector = m.vector(have)
+	if md == nil {
+		panic(pathAbort{"unknown: could not extract a model for a counterexample"})
+	}
+	v.Vector = m.vector(md)
 	v.Decisions = append([]int64{}, m.decisions...)
 	if m.fs != nil && v.Trace == nil {
 		v.Trace = append([]string{}, m.fs.trace...)
@@ -65,6 +82,7 @@ func (m *Machine) violate(v Violation, extra ...*Term) {
 		}
 	}
 	m.viols = append(m.viols, v)
+	return true
 }
 
 func (m *Machine) nondetIntrinsic(name string, args []Val) (Val, bool) {
@@ -114,7 +132,7 @@ func (m *Machine) nondetIntrinsic(name string, args []Val) (Val, bool) {
 			return nil, true
 		}
 		if !m.replaying() {
-			if m.check(x.t) != "sat" {
+			if !m.feasible(x.t) {
 				panic(pathAbort{"infeasible"})
 			}
 		}
@@ -136,9 +154,12 @@ func (m *Machine) nondetIntrinsic(name string, args []Val) (Val, bool) {
 		}
 		if !m.replaying() {
 			m.h.nObligations++
-			m.violate(Violation{Kind: "assert", Label: label, Pos: m.posStr(m.callPos)}, c.Not(x.t))
-			if m.check(x.t) != "sat" {
-				panic(pathAbort{"violation"}) // the assertion fails on the whole path
+			// a cached model falsifying the assertion still goes through the
+			// solver (violate), which extracts the counterexample
+			if m.violate(Violation{Kind: "assert", Label: label, Pos: m.posStr(m.callPos)}, c.Not(x.t)) {
+				if !m.feasible(x.t) {
+					panic(pathAbort{"violation"}) // the assertion fails on the whole path
+				}
 			}
 		}
 		m.assume(x.t)
